@@ -118,6 +118,15 @@ func (e *routesEngine) generate(r *rng, n int, tier string, emit func(string)) {
 				ls(sy("def"), sy("strs"), call1("str", "col1\tcol2", "cr\rx", "nb\u00a0sp", "q\"b\\s", "nl\nx")))
 			names = append(names, "$rate", "usd", "strs")
 		}
+		if r.chance(1, 4) {
+			// symbols from different places of the text are the same symbol
+			forms = append(forms, ls(sy("def"), sy("symeq"), call1("list",
+				call1("=", call1("quote", sy("a")), call1("quote", sy("a"))),
+				call1("=", call1("quote", ls(sy("a"), vc(sy("b"), sy("c")))), call1("quote", ls(sy("a"), vc(sy("b"), sy("c"))))),
+				ls(sy("let"), vc(sy("tag"), call1("quote", sy("circle"))), ls(sy("if"), call1("=", sy("tag"), call1("quote", sy("circle"))), "round", "angular")),
+				call1("=", call1("symbol", "a"), call1("quote", sy("a"))))))
+			names = append(names, "symeq")
+		}
 		crlf := r.chance(1, 5)
 		nl := "\n"
 		if crlf {
